@@ -468,6 +468,12 @@ theorem main_multi_refused (segs : List Seg) (hwf : ∀ s ∈ segs, s.WF) (hlen 
 theorem main_simple : mainConfig none true = some .falsy ∧ mainConfig (some []) false = some .falsy
     ∧ mainConfig none false = some .any := ⟨rfl, rfl, rfl⟩
 
+/-- a `[UCMM] Route Path = p/l/…` configuration entry gives exactly that personality (any length: the
+single-segment restriction is `main()`'s, not the UCMM's), and no entry gives "any" -/
+theorem file_config_spelled (segs : List Seg) (hne : segs ≠ []) (hwf : ∀ s ∈ segs, s.WF) :
+    fileConfig (some (renderSlash segs)) = some (.path segs) ∧ fileConfig none = some .any := by
+  simp [fileConfig, parse_route_spells segs hne hwf]
+
 /-! ### … and what a client request carries -/
 
 /-- a client that disables the route path (`route_path=False/0/[]`, as `-S` does) is accepted by
